@@ -242,6 +242,11 @@ pub fn run_type<T: Reg>(cx: &mut Cx, name: &str) {
 				let big = r.bigbias;
 				value_case::<T>(cx, name, &desc, &v, seed, big);
 			},
+			"valhex" => {
+				if let Ok(v) = T::decode(&mut &unhex(&only[2])[..]) {
+					value_case_rp::<T>(cx, name, &desc, &v, format!("{name}\tvalhex\t{}", only[2]));
+				}
+			},
 			"alloc" | "peak" => {
 				alloc_case::<T>(cx, name, &desc, &unhex(&only[3]), only[2] == "1");
 			},
@@ -298,6 +303,12 @@ pub fn run_type<T: Reg>(cx: &mut Cx, name: &str) {
 				r.bigbias = k % 7 == 3;
 				let v = T::gen(&mut r, 0);
 				value_case::<T>(cx, name, &desc, &v, seed, k % 7 == 3);
+			}
+			if desc.starts_with("(TCompact") {
+				// every class boundary of the compact format that fits the width, +-1
+				for (v, enc) in compact_boundaries::<T>() {
+					value_case_rp::<T>(cx, name, &desc, &v, format!("{name}\tvalhex\t{}", hex(&enc)));
+				}
 			}
 		},
 		Mode::C03 | Mode::C08 | Mode::C14 | Mode::C18 | Mode::C19 => {
@@ -420,6 +431,28 @@ pub fn run_type<T: Reg>(cx: &mut Cx, name: &str) {
 /// value-driven cases: encode (C01), round trip (C02), entry points (C07)
 fn value_case<T: Reg>(cx: &mut Cx, name: &str, desc: &str, v: &T, seed: u64, big: bool) {
 	let rp = format!("{name}\tval\t{seed}\t{}", if big { "big" } else { "-" });
+	value_case_rp::<T>(cx, name, desc, v, rp)
+}
+
+/// the class boundaries of the compact format, as values of a compact type (through its decoder)
+fn compact_boundaries<T: Reg>() -> Vec<(T, Vec<u8>)> {
+	let mut out = vec![];
+	let mut bs: Vec<u128> = vec![0, 1, 2];
+	for e in [6u32, 8, 14, 16, 30, 32, 40, 48, 56, 64, 72, 96, 120, 127] {
+		let p = 1u128 << e;
+		bs.extend([p - 1, p, p + 1]);
+	}
+	bs.push(u128::MAX);
+	for b in bs {
+		let enc = parity_scale_codec::Compact(b).encode();
+		if let Ok(v) = T::decode(&mut &enc[..]) {
+			out.push((v, enc));
+		}
+	}
+	out
+}
+
+fn value_case_rp<T: Reg>(cx: &mut Cx, name: &str, desc: &str, v: &T, rp: String) {
 	let Some(enc) = encode_guarded(v) else {
 		cx.oracle.check(false, "encode-panic", || rp.clone());
 		return;
@@ -667,6 +700,16 @@ fn oracle_c19<T: Reg>(cx: &mut Cx, name: &str, inp: &[u8], known: bool, rr: &RRe
 		},
 		Err(_) => cx.oracle.check(false, "panic", rp),
 	}
+	// the same over the crate's own slice input: count == what the slice gave up, also after a failure
+	let mut s = inp;
+	let out = catch_unwind(AssertUnwindSafe(|| {
+		let mut c = parity_scale_codec::CountedInput::new(&mut s);
+		let r = T::decode(&mut c).is_ok();
+		(r, c.count())
+	}));
+	if let Ok((_, count)) = out {
+		cx.oracle.check(count == (inp.len() - s.len()) as u64, "count!=slice-consumed", rp);
+	}
 }
 
 fn oracle_c11<T: Reg>(cx: &mut Cx, name: &str, desc: &str, inp: &[u8], fam: &str, v: Option<T>) {
@@ -676,6 +719,17 @@ fn oracle_c11<T: Reg>(cx: &mut Cx, name: &str, desc: &str, inp: &[u8], fam: &str
 		(DRes::Ok(w, _), _) => w.depth(),
 		_ => dec_rec::<T>(inp, true).2,
 	};
+	// the limiter forwards the nesting hooks to the input it wraps: an input with its own guard sees
+	// the same nesting as without the limiter
+	{
+		use parity_scale_codec::DecodeLimit;
+		let plain = dec_rec::<T>(inp, true);
+		let mut rec = Rec::new(inp, true);
+		let lim = catch_unwind(AssertUnwindSafe(|| T::decode_with_depth_limit(depth + 2, &mut rec).is_ok()));
+		if let (DRes::Ok(..), Ok(true)) = (&plain.0, &lim) {
+			cx.oracle.check(rec.max_depth == plain.2 && rec.depth == 0, "depth-hooks-not-forwarded", || format!("{}\tinner_max_depth={}\twithout_limiter={}", rp(), rec.max_depth, plain.2));
+		}
+	}
 	let mut prev_ok = false;
 	let maxl = depth + 2;
 	for l in 0..=maxl {
